@@ -217,6 +217,22 @@ impl<'a> Tokenizer<'a> {
             _ => ErrorCode::NumericDataError,
         })?;
         if len > 0 {
+            // The integer parser does not notice every literal that is one digit too long
+            // (i.e. #Q3000000000000000000000), count the bits of the significant digits
+            let bits_per_digit = match radix {
+                b'H' | b'h' => 4,
+                b'Q' | b'q' => 3,
+                _ => 1,
+            };
+            let mut significant = self.chars.as_slice()[..len]
+                .iter()
+                .skip_while(|digit| **digit == b'0');
+            if let Some(first) = significant.next() {
+                let first_bits = 32 - util::ascii_to_digit(*first, 16).map_or(0, u32::leading_zeros);
+                if first_bits as usize + significant.count() * bits_per_digit > 64 {
+                    return Err(ErrorCode::DataOutOfRange);
+                }
+            }
             self.chars.nth(len - 1).unwrap();
             let ret = Token::NonDecimalNumericProgramData(n);
             // Skip to next separator
